@@ -15,10 +15,17 @@ UnicodeError / LookupError / struct.error (`failure_classes`, compositional over
 time strings, TLVs, splitters, cloning), and each of these is an instance of a class in the
 isinstance tuple of esme.py after which the loop goes on (regenerated: Gen/Catch.senderContinues) —
 so the Sender task survives every iteration (`sender_survives`).  `RuntimeError` stands for codecs
-outside the model, excluded by hypothesis.  That send_error is called exactly once, that the next
-message goes out, and the order on the wire are observed on the real session (predicate), not proved.
+outside the model, excluded by hypothesis.
+
+QUEUE LEVEL (Model/SenderLoop.lean, Lemmas/SenderLoop.lean): the loop over a whole queue with the sequence-number and
+reference generators threaded through.  For every queue of constructible messages: exactly one result per message, in
+queue order, each the message's own iteration on the generator state its predecessors left (`queue_in_order`), none
+ends the task (`queue_never_stops`), and the wire is the concatenation of the per-message PDUs in queue order
+(`wire_in_queue_order`).  That the hook calls made by the real loop are these results (send_error once, with the failing
+message) is observed on the real session: per-message and whole-queue correspondence + predicate.
 -/
 import SmppVerif.Lemmas.ClassesEnc
+import SmppVerif.Lemmas.SenderLoop
 
 namespace SmppVerif.Props.C06
 open SmppVerif SmppVerif.Pdu SmppVerif.Sender SmppVerif.Lemmas.Classes SmppVerif.Lemmas.ClassesEnc
@@ -49,6 +56,40 @@ theorem sar_parameters_valid (ref seq total : Nat) :
     tlvValid ⟨Gen.Tlv.sarMsgRefNum, .int ref⟩ = true ∧ tlvValid ⟨Gen.Tlv.sarSegmentSeqnum, .int seq⟩ = true ∧
     tlvValid ⟨Gen.Tlv.sarTotalSegments, .int total⟩ = true := sar_valid ref seq total
 
+/-! ### the whole queue -/
+
+open SmppVerif.SenderLoop SmppVerif.Lemmas.SenderLoop in
+/-- The messages queued after it are still sent, in the order they were queued: for every queue of constructible
+    messages and every state of the two generators, the Sender produces exactly one result per message, in queue order —
+    the i-th result is the i-th message's own iteration on the generator state left by the messages before it. -/
+theorem queue_in_order (dflt : Enc) (ms : List Sm) (gs : Gens) (hok : ∀ m ∈ ms, ParamsOK m) (hin : ∀ m ∈ ms, InModel dflt m) :
+    loop dflt gs ms = List.zipWith (fun g m => (iterationG dflt g m).2) (states dflt gs ms) ms ∧
+    (loop dflt gs ms).length = ms.length :=
+  ⟨loop_eq dflt ms gs hok hin, loop_length dflt ms gs hok hin⟩
+
+open SmppVerif.SenderLoop SmppVerif.Lemmas.SenderLoop in
+/-- … and none of them ends the Sender task: every result is "written" or "handed to send_error with an error after
+    which the loop goes on". -/
+theorem queue_never_stops (dflt : Enc) (ms : List Sm) (gs : Gens) (hok : ∀ m ∈ ms, ParamsOK m) (hin : ∀ m ∈ ms, InModel dflt m) :
+    ∀ r ∈ loop dflt gs ms, survives r = true :=
+  loop_all_survive dflt ms gs hok hin
+
+open SmppVerif.SenderLoop SmppVerif.Lemmas.SenderLoop in
+/-- the PDUs on the wire are the per-message PDUs concatenated in queue order -/
+theorem wire_in_queue_order (dflt : Enc) (ms : List Sm) (gs : Gens) (hok : ∀ m ∈ ms, ParamsOK m) (hin : ∀ m ∈ ms, InModel dflt m) :
+    (loop dflt gs ms).flatMap wireOf =
+      (List.zipWith (fun g m => wireOf (iterationG dflt g m).2) (states dflt gs ms) ms).flatten :=
+  wire_in_order dflt ms gs hok hin
+
+/-- non-vacuity (kernel evaluation): a queue of three messages, the second of which cannot be encoded (explicit gsm0338,
+    Cyrillic text): three results — written, handed to send_error, written; the loop goes on -/
+example :
+    let q : List Sm := [{ shortMessage := [104, 105] }, { shortMessage := [1078], encoding := some encGsm, autoPayload := false },
+                        { shortMessage := [111, 107] }]
+    let gs : SmppVerif.SenderLoop.Gens := ⟨Policy.SeqGen.init 1 0x7FFFFFFF, ⟨none⟩⟩
+    (SmppVerif.SenderLoop.loop encGsm gs q).map (fun r => match r with | .sent ps => ps.length | .failed _ _ => 100) = [1, 100, 1] := by
+  decide +kernel
+
 /-- non-vacuity (kernel evaluation of the sender model): a plain message is written; a text outside
     the alphabet under an explicit gsm0338 fails with UnicodeEncodeError and the loop goes on; an
     encoding name without codec fails with LookupError and the loop goes on -/
@@ -67,3 +108,6 @@ end SmppVerif.Props.C06
 #print axioms SmppVerif.Props.C06.continues_after
 #print axioms SmppVerif.Props.C06.sender_survives
 #print axioms SmppVerif.Props.C06.sar_parameters_valid
+#print axioms SmppVerif.Props.C06.queue_in_order
+#print axioms SmppVerif.Props.C06.queue_never_stops
+#print axioms SmppVerif.Props.C06.wire_in_queue_order
